@@ -76,7 +76,54 @@ def flatten(p: Program, t: Term, depth: int = 3) -> Term:
                 return u
 
             return flatten(p, subst(body), depth - 1)
+    # static helpers of the library that are one expression (Op.is_close -> np.isclose(a, b, atol=settings.atol, ...))
+    if t[0] == "call" and t[1][0] == "global" and t[1][1].startswith("fuzzylite.operation.Operation.") and depth > 0:
+        hname = t[1][1].split(".")[-1]
+        try:
+            hf = p.func("Operation." + hname)
+        except AnalysisError:
+            hf = None
+        if hf is not None and hf.is_static and hname not in ("scalar", "array"):
+            try:
+                body = return_term(p, p.cls("Operation"), hname)
+            except AnalysisError:
+                body = None
+            names = [x.name for x in hf.params]
+            if body is not None and len(t[2]) <= len(names) and not any(q[0] in ("opaque", "phi") for q in walk(body)):
+                bound = {("param", n): flatten(p, a, depth) for n, a in zip(names, t[2])}
+                bound.update({("param", k): flatten(p, v, depth) for k, v in t[3]})
+                if len(bound) == len(names):
+                    def subst2(u: Any) -> Any:
+                        if isinstance(u, tuple) and u and isinstance(u[0], str):
+                            return bound[u] if u in bound else tuple(subst2(x) for x in u)
+                        return tuple(subst2(x) for x in u) if isinstance(u, tuple) else u
+
+                    return flatten(p, subst2(body), depth - 1)
+    # np.isclose(a, b, atol, rtol): |a - b| <= atol + rtol*|b| with the library's default tolerances
+    if t[0] == "call" and t[1] == ("global", "numpy.isclose") and len(t[2]) >= 2:
+        kw = dict(t[3])
+        a, b = flatten(p, t[2][0], depth), flatten(p, t[2][1], depth)
+        rtol = _tolerance(p, kw.get("rtol", t[2][2] if len(t[2]) > 2 else ("const", 1e-05)))
+        atol = _tolerance(p, kw.get("atol", t[2][3] if len(t[2]) > 3 else ("const", 1e-08)))
+        if rtol is not None and atol is not None:
+            d = ("binop", "-", a, b)
+            if rtol == 0:
+                return ("bool", "and", (("cmp", ("<=",), (d, ("const", atol))), ("cmp", ("<=",), (("unop", "-", d), ("const", atol)))))
+            bound_ = ("binop", "+", ("const", atol), ("binop", "*", ("const", rtol), ("call", ("global", "numpy.abs"), (b,), ())))
+            return ("cmp", ("<=",), (("call", ("global", "numpy.abs"), (d,), ()), bound_))
     return tuple(flatten(p, x, depth) for x in t)
+
+
+def _tolerance(p: Program, t: Term) -> float | None:
+    """A tolerance argument as a number: a literal, or settings.atol / settings.rtol at the default of the Settings constructor."""
+    if t[0] == "const" and isinstance(t[1], (int, float)):
+        return float(t[1])
+    if t[0] == "attr" and t[1] == ("global", "fuzzylite.library.settings") and t[2] in ("atol", "rtol"):
+        init = p.cls("Settings").lookup("__init__")
+        for prm in init.params:
+            if prm.name == t[2] and isinstance(prm.default, ast.Constant) and isinstance(prm.default.value, (int, float)):
+                return float(prm.default.value)
+    return None
 
 
 def unwrap(t: Term) -> Term:
